@@ -196,9 +196,26 @@ class Check:
         if env_extra:
             env.update(env_extra)
 
+        def crash_line(err):
+            first = [l for l in err.splitlines() if l.startswith("panic:") or "fatal error" in l or l == "TIMEOUT"]
+            return first[0] if first else (err.strip().splitlines()[-1] if err.strip() else "?")
+
+        def crashes_alone(case):
+            """re-run one case in a process of its own (with a grace period before exit, so that a
+            panic in a goroutine the case left behind is still seen)"""
+            try:
+                p = subprocess.run([exe, logger], input=(case + "\n").encode(), stdout=subprocess.PIPE,
+                                   stderr=subprocess.PIPE, env=dict(env, VERIF_GRACE_MS="600"), timeout=timeout)
+            except subprocess.TimeoutExpired:
+                return "TIMEOUT"
+            if p.returncode != 0:
+                return crash_line(p.stderr.decode("utf-8", "replace"))
+            return None
+
         def run_shard(shard):
             results = [None] * len(shard)
             start = 0
+            tried = set()
             while start < len(shard):
                 inp = ("\n".join(shard[start:]) + "\n").encode()
                 try:
@@ -222,12 +239,24 @@ class Check:
                         results[start + int(k)] = r
                 if not crashed:
                     break
-                # the announced case crashed the process
+                # The process died while the announced case was running.  A panic in a goroutine that an
+                # EARLIER case left behind (a reader starting late on a loaded machine) dies here too, so
+                # the culprit is established by re-running the candidates alone.
                 bad = start + max(announced, 0)
-                if results[bad] is None:
-                    first = [l for l in err.splitlines() if l.startswith("panic:") or "fatal error" in l or l == "TIMEOUT"]
-                    results[bad] = "CRASH " + (first[0] if first else err.strip().splitlines()[-1] if err.strip() else "?")
-                start = bad + 1
+                culprit, why = bad, crash_line(err)
+                if bad not in tried:
+                    tried.add(bad)
+                    for cand in (bad, bad - 1, bad - 2, bad - 3):
+                        if cand < 0:
+                            break
+                        alone = crashes_alone(shard[cand])
+                        if alone:
+                            culprit, why = cand, alone
+                            break
+                results[culprit] = "CRASH " + why
+                if os.environ.get("VERIF_DEBUG"):
+                    print(f"[run_impl] crash: start={start} announced={announced} bad={bad} culprit={culprit} why={why}", file=sys.stderr)
+                start = bad + 1 if culprit == bad else bad
             return [r if r is not None else "NO-RESULT" for r in results]
 
         with ThreadPoolExecutor(max_workers=jobs) as ex:
